@@ -516,7 +516,7 @@ def scenarios_conv(seed, n, op='from_data', max_depth=3, classes=True):
     out = []
     for i in range(n):
         gen = Gen(g.randrange(1 << 62), max_depth=g.choice([1, 2, 2, 3, max_depth]), classes=classes,
-                  noinit=op not in ('roundtrip', 'into_data'))
+                  noinit=op not in ('roundtrip', 'into_data', 'convert2'))
         ty = gen.gen_type(0, lit_ok=True)
         p = gen.r.random()
         try:
